@@ -197,6 +197,21 @@ func (fr *Frame) invoke(cc *ssa.CallCommon, recv Value, args []Value, pc *Term, 
 		return fr.unknownCall(calleeText(cc), args, pc, st, resT, pos)
 	}
 	ex.oblige("nil", "invoke "+exprAtPos(ex, pos), pos, pc, Neq(iv.Tag, BV(0, 16)), "interface value is not nil")
+	if typeKey(cc.Value.Type()) == "context.Context" && (mname == "Done" || mname == "Err") && len(args) == 0 {
+		// context.Context: successive calls of Done return the same channel,
+		// nothing is ever sent on it, and Err is non-nil exactly once it is closed
+		ex.note("stdlib contract assumed: context.Context.Done/Err (Done returns the same close-only channel on every call; Err() != nil iff it is closed)")
+		done := ctxDoneRef(iv)
+		if mname == "Done" {
+			return callResult{val: ChanV{Ref: done}, st: st}
+		}
+		e := ex.freshResult(resT, "ctxerr", st, pc)
+		if ei, ok := e.(IfaceV); ok {
+			cl := st.get("chclosed", SArr(SRef, SBool))
+			ex.assume(pc, Eq(Neq(ei.Tag, BV(0, 16)), Select(cl, done)))
+		}
+		return callResult{val: e, st: st}
+	}
 	if typeKey(cc.Value.Type()) == "btclog.Logger" {
 		// logging has no effect on the modelled state, whatever logger is installed
 		return fr.unknownCall(calleeText(cc), args, pc, st, resT, pos)
@@ -599,7 +614,7 @@ func (fr *Frame) selectInstr(x *ssa.Select, pc *Term, st *State) Value {
 					ex.assume(pc, Implies(taken, Neq(p.Ref, RefNil())))
 				}
 			}
-			if ex.ctx.chanDisc(s.Chan) == "closeonly" && isChan {
+			if (ex.ctx.chanDisc(s.Chan) == "closeonly" || isCtxDone(s.Chan)) && isChan {
 				// nothing is ever sent on this channel: a receive succeeds only once it is closed
 				ex.assume(pc, Implies(taken, Select(cl, c.Ref)))
 			}
@@ -860,12 +875,19 @@ func (ex *Exec) assumeNonNil(v Value, pc *Term) {
 	case ChanV:
 		ex.assume(pc, Neq(x.Ref, RefNil()))
 	case TupleV:
-		for _, e := range x.E {
-			if _, isErr := e.(IfaceV); isErr && len(x.E) > 1 {
-				// the trailing error of a multi-value result stays arbitrary
+		// the trailing error of a multi-value result stays arbitrary, and the
+		// other results are non-nil only when it is nil
+		ok := pc
+		if n := len(x.E); n > 1 {
+			if ei, isErr := x.E[n-1].(IfaceV); isErr {
+				ok = And(pc, Eq(ei.Tag, BV(0, 16)))
+			}
+		}
+		for i, e := range x.E {
+			if _, isErr := e.(IfaceV); isErr && len(x.E) > 1 && i == len(x.E)-1 {
 				continue
 			}
-			ex.assumeNonNil(e, pc)
+			ex.assumeNonNil(e, ok)
 		}
 	}
 }
@@ -875,6 +897,12 @@ func chanElem(t types.Type) types.Type {
 		return c.Elem()
 	}
 	return types.Typ[types.Invalid]
+}
+
+// ctxDoneRef: the channel ctx.Done() returns, a function of the context value.
+func ctxDoneRef(iv IfaceV) *Term {
+	DeclareFun("ctxdone", []string{SBV(16), SBV(64)}, SRef)
+	return App("ctxdone", SRef, iv.Tag, iv.Pay)
 }
 
 // isCtxDone: the channel is the result of a ctx.Done() call.
